@@ -1,6 +1,7 @@
 CONSTANTS LOCSYMSIGHT = 3
-          MaxLen = 4 MaxDepth = 2 Focus = "case" Devs = {} CaseModes = {TRUE, FALSE}
+          MaxLen = 4 MaxDepth = 2 Focus = "case" CaseModes = {TRUE, FALSE}
+          DevSets = {{}} CheckConst = FALSE
 SPECIFICATION Spec
-INVARIANTS LookupAgreesWithManual ExtraPassAgrees ConvergesInTwo StackMirrorsText
+INVARIANTS LookupAgreesWithManual ExtraPassAgrees ConvergesInTwo StackMirrorsText StacksNonEmpty
 PROPERTIES ConstNeverChanges RedefIsError
 CHECK_DEADLOCK FALSE
